@@ -17,7 +17,7 @@ triple and the outputs of the implementation's own flatten_action / unflatten_ac
 """
 import numpy as np
 
-from harness.envs.base import EnvAdapter
+from harness.envs.base import T_SWEEP_QUICK, T_SWEEP_THOROUGH, EnvAdapter
 
 DEFAULTS = dict(cube_size=3, time_limit=200, num_scrambles=100)   # documented constructor defaults
 INVERSE_AMOUNT = {0: 1, 1: 0, 2: 2}
@@ -114,6 +114,10 @@ class Adapter(EnvAdapter):
                 _scr("n4_t20_s7", 4, 20, 7, 3, 23, ["solve", "random", "random"], probe_every=5),
                 _scr("n5_t3_s100", 5, 3, 100, 4, 6, ["random"], probe_every=2),
             ]
+            # time-limit sweep ("for every value passed"): primes and powers of two, one random episode each,
+            # no probes; the cube is scrambled 100 times, so random play does not solve it before the limit
+            out += [_scr(f"n2_t{t}_sweep", 2, t, 100, 1, t + 2, ["random"], probe_every=0, props=["C03", "C11"])
+                    for t in T_SWEEP_QUICK]
             out += [_lab(n, "ids", np.int32) for n in (2, 3, 4, 5)]
             out += [_lab(n, "ids", np.int8) for n in (2, 3, 4)]
             out += [_lab(5, "rows", np.int8), _lab(5, "cols", np.int8)]
@@ -138,6 +142,8 @@ class Adapter(EnvAdapter):
             ]
             if 6 * n * n <= 127:
                 out.append(_lab(n, "ids", np.int8, max_steps=6))
+        out += [_scr(f"n2_t{t}_sweep", 2, t, 100, 1, t + 2, ["random"], probe_every=0, props=["C03", "C11"])
+                for t in T_SWEEP_THOROUGH]
         return out
 
     # ---- construction -------------------------------------------------------------------------
